@@ -109,6 +109,7 @@ int iv_event_register(struct iv_event *this)
 			ret = iv_event_raw_register(&st->events_kick);
 			if (ret) {
 				st->event_count--;
+				st->numobjs--;
 				return ret;
 			}
 		}
